@@ -330,6 +330,11 @@ func checkFreshFor(p *Program, r *Report, rule string, reader *ssa.Function, wha
 	for k := range vt.ve.effects(reader).stStores {
 		stored[k] = true
 	}
+	if stN := p.NamedType(p.Trie, "SlimTrie"); stN != nil {
+		for k := range computedStateFields(p, stN) {
+			stored[k] = true
+		}
+	}
 	var fields []string
 	for f := range reads {
 		if stored[f] {
